@@ -27,6 +27,8 @@ def colliding_keys(rng, mask, want, n):
 
 
 def spec(line, out):
+    if out.startswith("<"):
+        return "the map operations crashed or did not terminate (%s)" % out
     ops = line.split(" ")[1]
     ops = [] if ops == "_" else ops.split(",")
     res = out.split(" ")[0].split(",") if ops else []
@@ -133,6 +135,83 @@ def fault_stage(ctx):
     return len(lines), nref, None, False
 
 
+def reset_stage(ctx):
+    """C14: the reference map attached to a builder is reset with it (flatcc_builder_reset -> flatcc_refmap_reset): histories with resets after the map
+    has grown onto the heap, then reuse of old and new keys; the map must answer as a fresh one. Returns (lines, failure-or-None, is_tie)"""
+    h = build_h(ctx)
+    r = ctx.rng
+    lines = []
+    for grow in (3, 6, 7, 12, 13, 24, 50, 200):
+        ks = [8 * (i + 1) for i in range(grow + 8)]
+        for variant in range(3):
+            pre = ["i%d:%d" % (k, i + 1) for i, k in enumerate(ks[:grow])]
+            post_keys = ks[:grow] if variant == 0 else ks[grow:] + ks[:3] if variant == 1 else r.sample(ks, min(len(ks), 6))
+            lines.append("refmap " + ",".join(pre + ["R"] + ["f%d" % k for k in ks[:6]] + ["i%d:%d" % (k, 500 + i) for i, k in enumerate(post_keys)] +
+                                             ["f%d" % k for k in ks] + ["R", "f8", "i8:9", "f8", "f16"]))
+    lines += [l for l in gen(ctx) if ",R" in l and "X" not in l][:60]
+    rc_c, out_c, err_c = run_parallel(h, lines, 16, timeout=600)
+    rc_m, out_m, err_m = run_parallel(FMODEL, lines, 16, timeout=1200)
+    idx, a, b = diff_streams(lines, out_c, out_m)
+    sf = [(i, w) for i, w in ((i, spec(l, a[i])) for i, l in enumerate(lines)) if w]
+    if sf:
+        i, why = min(sf, key=lambda t: len(lines[t[0]]))
+        return len(lines), {"kind": "property-fails-on-implementation", "op": lines[i][:20000], "c_output": a[i][:5000], "model_output": b[i][:5000],
+                            "why": "reference map after reset does not behave like a fresh one: " + why}, False
+    if idx:
+        i = min(idx, key=lambda k: len(lines[k]))
+        return len(lines), {"kind": "correspondence-broken", "op": lines[i][:20000], "c_output": a[i][:5000], "model_output": b[i][:5000]}, True
+    return len(lines), None, False
+
+
+def clone_stage(ctx):
+    """generated <T>_clone_as_root (tables, structs, strings, every vector kind, unions, union vectors, nested buffers — clone is built from the
+    per-field pick functions) on random schemas and trees: the finished root of every C03-style case is cloned into a FRESH builder, once with a
+    reference map and once without; the clone must succeed, verify, read back through every accessor exactly like the source (= the value tree),
+    and with the reference map objects shared in the source must not be duplicated. -> (stats, failures)"""
+    from props import c03
+    from concurrent.futures import ThreadPoolExecutor
+    flatcc, _ = build_flatcc(ctx)
+    rt = build_runtime_objs(ctx)
+    nschema = 24 if ctx.quick() else 300
+    jobs = [(ctx.work, flatcc, rt, ctx.seed, si, 10 if ctx.quick() else 16, True) for si in range(nschema)]
+    with ThreadPoolExecutor(16) as ex:
+        results = list(ex.map(c03.one_schema, jobs))
+    fails, n, nshared, nlong = [], 0, 0, 0
+    known_nested = []
+    for res in results:
+        if "error" in res:
+            fails.append(("generated code unusable: " + res["error"][:600], res.get("fbs", ""), None)); continue
+        for c in res["cases"]:
+            l = c["line"] or ""
+            if c["why"] and "clone=" not in l and "cverify" not in l:
+                if "crashed" in (c["why"] or ""):
+                    fails.append(("clone scenario crashed (sanitizer / signal): " + c["why"][-900:], res["fbs"], c))
+                continue          # the original build is C03's business
+            m = re.search(r" clone=(\S+) cverify=(-?\d+) cok=(\d),(\d) csize=(\d+),(\d+)", l)
+            if not m:
+                if " verify=0" in l: fails.append(("clone produced no result: " + l[-300:], res["fbs"], c))
+                continue
+            n += 1
+            nshared += bool(c["meta"].get("shared")); nlong += bool(c["meta"].get("fresh"))
+            dump, cv, ok0, ok1, s0, s1 = m.group(1), int(m.group(2)), int(m.group(3)), int(m.group(4)), int(m.group(5)), int(m.group(6))
+            toks = c["model_line"].split(" ")
+            if not (ok0 and ok1): fails.append(("<T>_clone_as_root failed (with refmap: %d, without: %d)" % (ok0, ok1), res["fbs"], c))
+            elif cv in (11, 12, 16) and ("B" in toks or "E" in toks):
+                # struct / table field / vector unaligned, and the source holds nested buffers: a nested buffer is cloned as a plain [ubyte] vector (alignment 1)
+                known_nested.append((res["fbs"], c, cv))
+            elif cv != 0: fails.append(("the clone does not verify (%d)" % cv, res["fbs"], c))
+            elif dump != c["expect"] and not c.get("known"): fails.append(("the clone reads differently from the source: %s" % dump[:600], res["fbs"], c))
+            elif s0 > s1: fails.append(("the clone with a reference map (%d bytes) is larger than without (%d)" % (s0, s1), res["fbs"], c))
+    if known_nested:
+        fbs, c, cv = known_nested[0]
+        if any(f["id"] == "clone-nested-buffer-loses-alignment" and f["status"] == "known" for f in load_known()):
+            known_finding(ctx, "clone-nested-buffer-loses-alignment", "the clone of a table with nested_flatbuffer fields does not verify (error %d: alignment): a nested buffer is cloned / picked as a plain "
+                          "[ubyte] vector with alignment 1, so its content loses the alignment it needs (%d cases this run)" % (cv, len(known_nested)))
+        else:
+            fails.append(("the clone does not verify (%d): nested buffer content misaligned in the clone" % cv, fbs, c))
+    return {"clone_cases": n, "clone_cases_with_shared_objects": nshared, "clone_cases_with_long_vectors": nlong, "clone_known_nested_alignment": len(known_nested)}, fails
+
+
 def run(ctx):
     ths = proof_stage(ctx)
     if ths is None:
@@ -154,7 +233,14 @@ def run(ctx):
                   {"kind": "correspondence-broken" if idx else "model-invariant-or-spec-broken",
                    "theorems_no_longer_tied": [t["name"] for t in ths], "op": lines[i][:20000], "c_output": a[i][:5000],
                    "model_output": b[i][:5000], "count": len(idx)}, no_failing_input=True)
+    cstats, cfails = clone_stage(ctx)
+    if cfails:
+        why, fbs, c = cfails[0]
+        violation(ctx, "clone_%d.json" % ctx.seed, {"kind": "property-fails-on-implementation", "why": why, "count": len(cfails), "more": [f[0][:200] for f in cfails[1:6]],
+                                                      "schema_fbs": fbs, "case": c and c["meta"], "expected_dump": c and c["expect"][:3000], "program_line": c and (c["line"] or "")[-3000:],
+                                                      "value_tree_tokens": c and c["model_line"][:3000]})
     nops = sum(l.count(",") + 1 for l in lines)
+    ctx.cov.update(cstats)
     ctx.cov.update({
         "evaluations": nops, "distinct_nontrivial": len(set(structural_hash(l) for l in lines if l.count(",") >= 3)),
         "rule": "operation sequences (insert/find/resize/reset/clear) over key pools: engineered hash collisions on the low 3..8 bits of the "
